@@ -756,6 +756,16 @@ func main() {
 		}
 	}
 
+	if r.Replay != "" && os.Getenv("VERIF_CHILD_OUT") == "" {
+		// a process that hosts the master ends with the race detector's exit code (the master
+		// has start-up races of its own), so the replay runs in a child like every other part
+		self := os.Getenv("VERIF_SELF")
+		if self == "" {
+			self, _ = os.Executable()
+		}
+		r.RunChild("replay", self, nil, "--replay", r.Replay)
+		r.Finish(0)
+	}
 	if r.Replay != "" {
 		var d caseDetail
 		r.Must(r.LoadReplay(&d), "load replay")
